@@ -470,4 +470,41 @@ def run(chk):
             ev.append(b.span)
         return True, "", ev
     chk.ob("C18.R6:push-arms-frame", "a pushed traceparent always travels in the frame (slot filled, frame active) on every path", push_arms_frame)
+
+    def filter_returns_decision():
+        """TraceparentFilter::matches: for a span whose incoming traceparent was computed (the Some arm of incoming_traceparent's result) the
+        answer *is* that traceparent's sampled flag - every such path returns is_sampled() of it, never a constant."""
+        bs = [b for b in P.find(trait="emit_core::filter::Filter", method="matches") if not b.is_closure and "TraceparentFilter" in (b.self_ty or "")]
+        if not bs:
+            raise mir.AnchorMissing("impl Filter for TraceparentFilter")
+        b = bs[0]
+        inc = [c for c in b.calls(normal_only=True) if c.callee.get("name") == "incoming_traceparent"]
+        if len(inc) != 1:
+            return False, "TraceparentFilter::matches must compute the incoming traceparent once (found %d)" % len(inc), [], b.span
+        checked = 0
+        for rb in b.return_blocks():
+            for path in b.acyclic_paths(0, rb, limit=4000):
+                if inc[0].bb not in path:
+                    continue
+                ps = mir.PathSummary(b, path)
+                some = False
+                for sbb, o, vals in ps.decisions():
+                    if o[0] == "discr":
+                        r = mir.o_root(o[1])
+                        if r[0] == "call" and r[1].bb == inc[0].bb and tuple(str(v) for v in vals) == ("1",):
+                            some = True
+                if not some:
+                    continue
+                checked += 1
+                ret = ps.ret()
+                if not (ret[0] == "call" and ret[1].callee.get("name") == "is_sampled"):
+                    return False, ("TraceparentFilter::matches returns %s for a span whose incoming traceparent was computed: the sampling decision is "
+                                   "ignored, so spans of an unsampled trace are enabled" % o_str(ret)), [], inc[0].loc
+                rr = mir.o_root(b.origin(ret[1].args[0], through_calls=("trace_flags", "deref", "as_ref")))
+                if not (rr[0] == "call" and rr[1].bb == inc[0].bb):
+                    return False, "the sampled flag returned is that of %s, not of the incoming traceparent" % o_str(rr), [], ret[1].loc
+        if checked < 1:
+            return False, "no path of TraceparentFilter::matches uses the computed incoming traceparent", [], b.span
+        return True, "", ["%d span paths return the incoming traceparent's sampled flag" % checked]
+    chk.ob("C18.R2:filter-returns-decision", "for a span the filter's answer is the sampled flag of its incoming traceparent", filter_returns_decision)
     return chk
